@@ -74,11 +74,11 @@ const (
 type Token struct {
 	Name      string
 	Kind      string
-	Base      string                    // base denom
-	ERC20     common.Address            // paired contract
-	Contracts map[string]string         // chain -> external token contract
-	Bridge    map[string]string         // chain -> bridge denom
-	Owner     int                       // user index owning an external token (KindExternal)
+	Base      string            // base denom
+	ERC20     common.Address    // paired contract
+	Contracts map[string]string // chain -> external token contract
+	Bridge    map[string]string // chain -> bridge denom
+	Owner     int               // user index owning an external token (KindExternal)
 }
 
 type Fixture struct {
@@ -223,7 +223,9 @@ type EthTxResult struct {
 	Panic string
 }
 
-func (r EthTxResult) Success() bool { return r.Err == nil && r.Panic == "" && r.Resp != nil && !r.Resp.Failed() }
+func (r EthTxResult) Success() bool {
+	return r.Err == nil && r.Panic == "" && r.Resp != nil && !r.Resp.Failed()
+}
 
 // EthTx signs and executes an EVM tx through EvmKeeper.EthereumTx on a branch of ctx that is written
 // only if the keeper returned no error (the EVM itself handles reverts internally).
